@@ -415,6 +415,7 @@ pub struct Shape {
     pub worldlines: usize,
     pub max_heads: usize,
     /// Stop feeding a worldline when it reaches this many ticks.
+    #[allow(dead_code)]
     pub target_ticks: u64,
     /// Worldline 1 (if any) shares warp + initial variant with worldline 0.
     pub twin_initial: bool,
